@@ -115,6 +115,25 @@ def isa(ref_term, names):
     return T.or_(*[T.eq(cls_tag(ref_term), TAGS[n]) for n in names])
 
 
+class UnknownAttr:
+    """value of an element attribute outside the ghost view: arbitrary"""
+
+    def __init__(self, what):
+        self.what = what
+        self._none = None
+
+    def pyvc_is_none(self):
+        if self._none is None:
+            self._none = T.fresh("unknown_attr_is_none", T.BOOL)
+        return self._none
+
+    def pyvc_getattr(self, interp, name):
+        raise Unsupported(f"attribute {self.what} is not part of the ghost view of an element")
+
+    def pyvc_getitem(self, interp, k):
+        raise Unsupported(f"attribute {self.what} is not part of the ghost view of an element")
+
+
 class Heap:
     """read-only symbolic heap of the elements of one network"""
 
@@ -239,10 +258,14 @@ class Heap:
             opts = FEQ_OPTIONS[names[0]]
             c.axiom(T.and_(T.le(0, f_feq(t)), T.lt(f_feq(t), len(opts))))
             return SEnum(f_feq(t), opts)
+        if any(k.declares_attr(name) for k in obj.classes):
+            # an instance attribute the ghost view does not know (e.g. a private cache): the heap stands
+            # for an arbitrary prior state, so its value is arbitrary - only `is None` can be asked
+            return UnknownAttr(f"{name} of {'|'.join(names)}")
         raise PyRaise(ExcValue("AttributeError", (f"{'|'.join(names)} object has no attribute {name}",)))
 
     def setattr(self, interp, obj, name, v):
-        cur().oblige("frame", f"no write to attribute {name} of another element", T.FALSE, assume_after=False)
+        cur().oblige("frame", f"the elements are only read here: no write to attribute {name} of an element (hidden state would make a step depend on earlier steps)", T.FALSE, assume_after=False)
         raise Infeasible()
 
 
